@@ -85,7 +85,7 @@ pub fn strategy() -> impl Strategy<Value = Case> {
 /// whole history can be replayed from it)
 fn history_block(b: u64) -> BlockReport {
     let mut rep = BlockReport::default();
-    let mut judge = |unit: u64, x: u64, rep: &mut BlockReport| {
+    let judge = |unit: u64, x: u64, rep: &mut BlockReport| {
         let c = Case { unit, x };
         rep.evaluations += 1;
         match check(&c) {
